@@ -163,7 +163,7 @@ for _p in ("C17", "C19"):
          " ObjFormat transcribes the binary format: BinRead (chunk grammar, little-endian fields, 64-bit quantities as 16-bit limbs, strict UTF-8, last-wins maps, line blocks disjoint and ending below 2^64) and BinWrite over any order of the hash-map tables. MC_ObjFormat model-checks that every object of a universe of about 6 900 objects reads back as itself in every table order, and that the reader is total on every file of up to 2 (thorough: 3) chunks out of 18 cut at any length with one byte replaced (700 k / 18 M files), whatever it accepts being written and read back equal. TV_Fmt gives the real writer's bytes of assembled and linked objects to BinRead (WrittenForView) and compares the real reader with BinRead on random, mutated and adversarially structured files (accept/reject and the object built), then the real writer's output for every accepted object.")
 _aug("C18", " + TLC: TxtFormat, the text format as a specification (MC_TxtFormat: round trip over an object universe with exotic sources; TV_Fmt: the real writer's text equals TxtWrite byte for byte, TxtRead reads it back)",
      " TxtFormat transcribes the text format: TxtWrite gives the exact text of an object (sorted tables, column widths counted in characters, char::escape_default of the source cells, the two dividers of .DEBUG) and TxtRead reads texts of that shape. MC_TxtFormat model-checks the round trip for every object of a universe with sources containing quotes, backslashes, TAB, CR LF, control and non-ASCII characters, ' | ' and lines starting with '#', '=', '.'. TV_Fmt requires the real writer's text of every assembled and linked object to equal TxtWrite byte for byte and TxtRead to read it back as the object.")
-for _p in ("C01", "C02"):
+for _p in ("C01", "C02", "C21", "C23", "C24", "C26"):
     _aug(_p, " + RP: every program MC_Asm checks (<= 3/4 statements over 17 templates) is assembled by the real assembler and validated by TLC (MC_AsmRP)",
          " RP: MC_AsmRP prints every program it checks (5 220; thorough 88 741); the harness renders and assembles each with the real parser and assembler and TV_Asm validates the record.")
 for _p in ("C20", "C22"):
